@@ -9,6 +9,7 @@ from pv import judges, plans
 
 ID = 'C15'
 TITLE = 'expose_inputs / expose_outputs'
+ANCHORS = ['plumpy.ports:PortNamespace.absorb', 'plumpy.ports:PortNamespace.strip_namespace', 'plumpy.process_spec:ProcessSpec._expose_ports', 'plumpy.ports:PortNamespace.create_port_namespace']
 LEVEL = 'exploration'
 TECHNIQUE = ('runtime monitoring against a reference model: expose_inputs/expose_outputs executed on generated source port trees and rule sets; '
              'the destination tree is compared with an independent component-wise path-selection model, attributes with the source, and '
